@@ -1,6 +1,7 @@
 import RawPanelVerif.Base.Wire
 import RawPanelVerif.Model.DecOut
 import RawPanelVerif.Spec.GrammarOut
+import RawPanelVerif.Gen.Consts
 /-!
 Driver glue for `eout.*` (C03: outbound messages → ASCII) and `dout.*` (C04: outbound ASCII → messages) records.
 
@@ -277,14 +278,18 @@ def stepEnc (args : List String) (impl : String) : String :=
       | none => "ERR bad-oracle"
       | some tb =>
         let o := oracleOf tb true
-        let model := EncOut.encOut o ms
-        let tags := ("mode." ++ mode) :: ms.flatMap encTags
+        -- mode c: what the C caller of rawpanel-lib-c reads (LF-join, C.CString: up to the first NUL), split at LF
+        let nul := mode = "c" && (EncOut.encOut o ms).any (fun l => l.contains 0)
+        let model := match mode, ms with
+          | "c", [m] => EncOut.cBindingLines o m
+          | _, _ => EncOut.encOut o ms
+        let tags := ("mode." ++ mode) :: (if nul then ["c.nul-truncated"] else []) ++ ms.flatMap encTags
         match parseAll (pList pHex) outT with
         | none =>
           -- panic or marshal error
           s!"NE H0:panic {hexLines model}{tagStr tags}"
         | some lines =>
-          let inDom := Spec.Out.inDomainOut o ms
+          let inDom := Spec.Out.inDomainOut o ms && !nul
           let h :=
             if !inDom then "H1"
             else if Spec.Out.approx (ms.map (Spec.Out.effectsOfOut o)) (Spec.Out.readOutbound o lines) then "H1"
@@ -317,9 +322,56 @@ def stepDec (args : List String) (impl : String) : String :=
           else "H0:effects"
         if " ".intercalate outT = ms then s!"EQ {h}{tagStr tags}" else s!"NE {h} {ms}{tagStr tags}"
 
+/-! ## the byte matchers of the decoder model against the library's real regular expressions -/
+
+/-- regenerated source text of a regex variable of converterFunctions.go -/
+def rxSource (name : String) : Option String :=
+  if name = "regex_cmd_inbound" then some Gen.regex_cmd_inbound_src
+  else if name = "regex_map" then some Gen.regex_map_src
+  else if name = "regex_genericSingle_inbound" then some Gen.regex_genericSingle_inbound_src
+  else if name = "regex_registersOut" then some Gen.regex_registersOut_src
+  else none
+
+/-- sub-matches 1.. the model's matcher returns for `line` (`none` = no match) -/
+def rxModel (name : String) (line : Bytes) : Option (Option (List Bytes)) :=
+  if name = "regex_cmd_inbound" then
+    some ((DecOut.matchCmd DecOut.kindsRepaired line).map (fun m => (DecOut.CmdM.subs line m).drop 1))
+  else if name = "regex_map" then some ((DecOut.matchMap line).map (fun kv => [kv.1, kv.2]))
+  else if name = "regex_genericSingle_inbound" then some ((DecOut.matchGeneric line).map (fun kv => [kv.1, kv.2]))
+  else if name = "regex_registersOut" then some ((DecOut.matchReg line).map (fun t => [t.1, t.2.1, t.2.2]))
+  else none
+
+/-- `dout.rx <var> | <hex of Regexp.String()>`: the compiled object the converters run has the regenerated source text -/
+def stepRx (args : List String) (impl : String) : String :=
+  match args, implTokens impl with
+  | [name], [h] =>
+    match rxSource name, unhex h with
+    | some src, some b => if src.toUTF8.toList = b.toList then "EQ H1" else s!"NE H1 {hx src.toUTF8.toList} B:regex-source-differs"
+    | _, _ => "ERR bad-record"
+  | _, _ => "ERR bad-record"
+
+/-- `dout.match <var> <hexline> | - | M <hex submatch>*` -/
+def stepMatch (args : List String) (impl : String) : String :=
+  match args with
+  | [name, l] =>
+    match unhex l, rxModel name with
+    | some a, f =>
+      match f a.toList with
+      | none => "ERR bad-record"
+      | some r =>
+        let model := match r with
+          | none => "-"
+          | some subs => "M" ++ String.join (subs.map (fun b => " " ++ hx b))
+        let tag := s!" B:rx.{name}.{if r.isSome then "match" else "nomatch"}"
+        if " ".intercalate (implTokens impl) = model then s!"EQ H1{tag}" else s!"NE H1 {model}{tag}"
+    | none, _ => "ERR bad-record"
+  | _ => "ERR bad-record"
+
 def step (cmd : String) (args : List String) (impl : String) : String :=
   if cmd = "eout.msgs" then stepEnc args impl
   else if cmd = "dout.lines" then stepDec args impl
+  else if cmd = "dout.match" then stepMatch args impl
+  else if cmd = "dout.rx" then stepRx args impl
   else "ERR bad-record"
 
 end RawPanelVerif.Driver.ConvOut
